@@ -1383,23 +1383,9 @@ def model_tie(rep, pool, tier):
                    (iv[2] is None or mv[2] is None or iv[2] == mv[2])
             if same:
                 st["agree"] += 1
-            elif c.op == "thrift_ph":
-                # known gap of the thrift engine's page-header model (reported to its owner): the statistics
-                # field of a data page header is SKIPPED by its actual wire type in parquet_types.c and PARSED
-                # as a Statistics struct in the model; the two differ on malformed / type-confused statistics.
-                # Tolerated up to 3 % of the compared page headers (observed: ~1 %), a systematic difference
-                # still breaks the tie below.
-                st["known_gap"] = st.get("known_gap", 0) + 1
-                st.setdefault("gap_examples", [])
-                if len(st["gap_examples"]) < 3:
-                    st["gap_examples"].append({"case": li[:200], "impl": raw[:40], "model": ans[:40]})
             else:
                 rep.tie_broken(f"{c.op}: implementation says {raw[:100]!r}, model ({eng} runner) says {ans[:100]!r}",
                                {"case": li[:400], "model_line": ml[:400]}, key=f"tie:{c.op}")
-    st = summary.get("thrift_ph")
-    if st and st.get("known_gap", 0) > 0.03 * max(1, st["compared"]):
-        rep.tie_broken(f"thrift_ph: {st['known_gap']} of {st['compared']} page headers differ between parquet_parse_page_header "
-                       f"and the thrift model (more than the known statistics gap explains)", st.get("gap_examples"))
     rep.cov["model_tie"] = summary
     rep.cov["model_tie_wall_s"] = round(time.time() - t0, 1)
     rep.cov["model_tie_not_tied"] = ("rle_stream (dynamic op sequence; the stream decoder is tied by C11), plain_disp (a switch), "
